@@ -237,9 +237,20 @@ def run_case(desc):
             elif op == "completed":
                 obs.increment_completed(section=section, scope=sc)
             else:
+                # what run hands to observers: a CallError chained to whatever the call raised - with a message, without one (bare assert,
+                # KeyError()), multi-line, non-ASCII, with non-string arguments
+                import uberjob
+                from uberjob.graph import Call
+
+                causes = [lambda: ValueError(f"boom <{k}> & more"), lambda: KeyError(), lambda: ValueError(), lambda: AssertionError(), lambda: RuntimeError(""),
+                          lambda: OSError(28, "No space left"), lambda: ValueError("line1\nline2 <b>\n"), lambda: KeyError(("t", 1)), lambda: Exception(None, 3.5),
+                          lambda: ValueError("\u00e9moji \u2713 " * 30), lambda: StopIteration(), lambda: ValueError("\n")]
                 try:
-                    raise ValueError(f"boom <{k}> & more")
-                except ValueError as e:
+                    try:
+                        raise causes[(k * 7 + len(scopes)) % len(causes)]()
+                    except Exception as cause:
+                        raise uberjob.CallError(Call(len, scope=sc)) from cause
+                except uberjob.CallError as e:
                     obs.increment_failed(section=section, scope=sc, exception=e)
 
         render_error = None
